@@ -37,6 +37,8 @@ type WorldSpec struct {
 	AllNamed bool
 	// NoHuge disables the occasional very large message.
 	NoHuge bool
+	// NearTie is the probability that a timestamp lies within 0..255 ns after a grid point.
+	NearTie float64
 	// DupTS is the probability that a record repeats the timestamp of the record before it.
 	DupTS float64
 }
@@ -44,7 +46,7 @@ type WorldSpec struct {
 var nameVocab = []string{"web", "web-1", "web-10", "api", "api.v2", "db", "db2", "cache", "worker", "a", "ab", "abc", "b", "proxy_1", "Z9"}
 var imageVocab = []string{"nginx:1", "nginx:1.25", "redis", "postgres:16", "busybox", "ghcr.io/acme/app:v2"}
 var stateVocab = []string{"running", "exited", "paused", "created"}
-var labelKeyVocab = []string{"msg", "com.docker.compose.service", "com.docker.compose.project", "app/tier", "zone-1", "tier", "weight", "1st", "maintainer", "org.opencontainers.image.title"}
+var labelKeyVocab = []string{"container.name", "container-state", "container_image", "msg", "com.docker.compose.service", "com.docker.compose.project", "app/tier", "zone-1", "tier", "weight", "1st", "maintainer", "org.opencontainers.image.title"}
 var labelValVocab = []string{"web", "db", "a", "ab", "b", "", "x y", "1", "2", "12", "tier", "front-end",
 	"line1\nline2", "q\"uote", "back\\slash", "ünï", "(x)", "a.b", "web", "cr\rinside", "crlf\r\n"}
 
@@ -170,7 +172,9 @@ func genLog(r *Rng, s WorldSpec, ci int) []Record {
 		if s.Grid > 0 && span >= s.Grid {
 			steps := span / s.Grid
 			ts = s.Lo + r.Int63n(steps+1)*s.Grid
-			if !r.Bool(s.TieProb) {
+			if s.NearTie > 0 && r.Bool(s.NearTie) {
+				ts += r.Int63n(256)
+			} else if !r.Bool(s.TieProb) {
 				ts += r.Int63n(s.Grid)
 			}
 		} else if span > 0 {
@@ -235,11 +239,18 @@ func genMsg(r *Rng, s WorldSpec, ci, j int) []byte {
 	case "jsonmix":
 		return []byte(Pick(r, []string{`{"s":200}`, `{"s":"200"}`, `{"s":200.0}`, `{"s":"a"}`, `{"s":1}`, `{"s":"1"}`, `{"s":1.0,"t":"x"}`, `{"s":true}`, `{"s":"true"}`}))
 	case "kv":
-		return []byte(Pick(r, []string{"a=bc", "ab=c", "x=1 y=2", "x=12", "a=b", "b=a", "a=1,b=2", "a=1 b=2", "abc=", "a=bc k=1", "ab=c k=1"}))
-	case "structured":
+		return []byte(Pick(r, []string{"a=bc", "ab=c", "x=1 y=2", "x=12", "a=b", "b=a", "a=1,b=2", "a=1 b=2", "abc=", "a=bc k=1", "ab=c k=1",
+			// a value whose raw bytes spell out a separator some encoding might use, next to the pair it would be confused with
+			"a=1\xffb\xff2", "a=1\x00b\x002", "a=1\x1fb\x1f2", "a=1\xfeb\xfe2", "a=1 b=2", "a=1 b=2"}))
+	case "structured", "logfmtk":
 		level := []string{"info", "warn", "error"}[r.Intn(3)]
 		k := r.Intn(5)
-		switch r.Intn(3) {
+		shape := r.Intn(3)
+		if s.Msg == "logfmtk" {
+			// every line carries a numeric k in logfmt form: one series per line under | logfmt | unwrap k
+			shape = 0
+		}
+		switch shape {
 		case 0:
 			if r.Bool(0.06) {
 				// a rare value: not-a-number
